@@ -150,6 +150,7 @@ func TestRetryReplay(t *testing.T) {
 }
 
 func replayRetry(in *retryInput, beh []rstep) (dv *vh.Divergence) {
+	defer recoverAsDivergence("retry", len(beh), &dv)
 	ft := &fakeTransport{gate: make(chan string)}
 	hc := &http.Client{Transport: ft}
 	ladder := make([]time.Duration, len(in.Ladder))
@@ -345,6 +346,17 @@ func TestRetryLoopback(t *testing.T) {
 	}
 }
 
+type countingRT struct {
+	next   http.RoundTripper
+	counts *sync.Map
+}
+
+func (c countingRT) RoundTrip(r *http.Request) (*http.Response, error) {
+	v, _ := c.counts.LoadOrStore(r.URL.Query().Get("blockNumber"), new(atomic.Int64))
+	v.(*atomic.Int64).Add(1)
+	return c.next.RoundTrip(r)
+}
+
 type attemptRec struct {
 	arrived, finished time.Time
 	outcome           string
@@ -366,7 +378,7 @@ func retryLoopbackRound(seed int64, out *vh.Result) (*vh.Divergence, string) {
 		}
 		return w
 	}
-	ncalls := 14
+	ncalls := 20
 	scripts := make([][]string, ncalls)
 	modes := make([]string, ncalls) // "", "precancel", "cancel-later"
 	delays := make([]time.Duration, ncalls)
@@ -440,7 +452,11 @@ func retryLoopbackRound(seed int64, out *vh.Result) (*vh.Divergence, string) {
 	defer srv.Close()
 	u, _ := url.Parse(srv.URL)
 	var slowest atomic.Int64
-	hc := &http.Client{Transport: &http.Transport{}}
+	// No keep-alive: net/http's Transport silently re-sends an idempotent request when a REUSED
+	// connection dies before the first response byte; with fresh connections every request the
+	// server sees is one attempt of the feeder client (cross-checked by counting RoundTrip calls).
+	var clientAttempts sync.Map // blockNumber -> *atomic.Int64
+	hc := &http.Client{Transport: countingRT{next: &http.Transport{DisableKeepAlives: true}, counts: &clientAttempts}}
 	defer hc.CloseIdleConnections()
 	client := feeder.NewClient(u, feeder.WithHTTPClient(hc), feeder.WithMaxRetries(maxRetries),
 		feeder.WithMinWait(minWait), feeder.WithMaxWait(maxWait), feeder.WithBackoff(feeder.ExponentialBackoff),
@@ -504,6 +520,13 @@ func retryLoopbackRound(seed int64, out *vh.Result) (*vh.Divergence, string) {
 			wantAttempts, wantRes = first200, "ok"
 		}
 		got := len(seen[i])
+		ca := int64(0)
+		if v, ok := clientAttempts.Load(strconv.Itoa(i)); ok {
+			ca = v.(*atomic.Int64).Load()
+		}
+		if modes[i] == "" && int(ca) != got {
+			return nil, fmt.Sprintf("call %d: the client made %d attempts but the server saw %d requests (transport-level retry?)", i, ca, got)
+		}
 		outcomes := make([]string, 0, got)
 		for _, a := range seen[i] {
 			outcomes = append(outcomes, a.outcome)
@@ -512,8 +535,8 @@ func retryLoopbackRound(seed int64, out *vh.Result) (*vh.Divergence, string) {
 		if modes[i] != "" {
 			// cancelled calls: never more attempts than an uncancelled one; a pre-cancelled or
 			// cancelled call does not succeed later than its script allows; the error is the context's
-			if got > wantAttempts {
-				return &vh.Divergence{Key: "retry-loopback:cancelled-call-too-many-attempts", What: desc}, ""
+			if int(ca) > maxRetries+1 || got > wantAttempts {
+				return &vh.Divergence{Key: "retry-loopback:cancelled-call-too-many-attempts", What: desc + fmt.Sprintf("; client attempts %d", ca)}, ""
 			}
 			if results[i].res != "ctx" && !(results[i].res == "ok" && got == wantAttempts && wantRes == "ok") && !(strings.HasPrefix(results[i].res, "err:") && got == wantAttempts) {
 				return &vh.Divergence{Key: "retry-loopback:cancelled-call-result", What: desc}, ""
